@@ -181,3 +181,21 @@ Theorem code_get_valid_subs_is_model : forall th r,
   Py_REDItoolsParser.py_get_valid_subs th r = get_valid_subs th r.
 Proof. exact code_get_valid_subs_is_model_l. Qed.
 Print Assumptions code_get_valid_subs_is_model.
+
+(* the arms of VEPRecord.convert_to_variant_record after the boundary checks (deletion with / without an upstream base,
+   strand flip of the allele, end- / start-inclusive single-position insertion, SNV, two-position insertion,
+   substitution, the SNV / INDEL / MNV decision and the location checks), translated from the source on every run
+   (coq/Gen/Py_VEPParser.v), are Vep.convert_core of the repaired code (fx = true) on the strand-corrected allele *)
+From MoPep Require Gen.Py_VEPParser.
+From MoPep Require Import Proofs.Py2CoqVepArmsProofs.
+
+Theorem code_vep_convert_core_translated : Py_VEPParser.py_vep_convert_core_untranslated = false.
+Proof. vm_compute. reflexivity. Qed.
+Print Assumptions code_vep_convert_core_translated.
+
+Theorem code_vep_convert_core_is_model : forall strand sq as1 ae2 ts allele0,
+  Py_VEPParser.py_vep_convert_core strand sq as1 ae2 ts allele0
+  = convert_core true sq as1 ae2 ts
+      (match allele0 with None => None | Some al0 => Some (if strand =? -1 then revcomp al0 else al0) end).
+Proof. exact code_vep_convert_core_is_model_l. Qed.
+Print Assumptions code_vep_convert_core_is_model.
